@@ -1154,7 +1154,22 @@ fn do_send(w: &mut World, st: &mut St, n: usize, si: usize, tape: &mut Tape) -> 
             let seqno = (seq & 0xffff) as u16;
             let src = st.addrs[n];
             let rest = [(ident >> 8) as u8, ident as u8, (seqno >> 8) as u8, seqno as u8];
-            let msg = if v6 { enc_icmp(true, &src, &dst, 128, 0, rest, &data) } else { enc_icmp(false, &src, &dst, 8, 0, rest, &data) };
+            let mut msg = if v6 { enc_icmp(true, &src, &dst, 128, 0, rest, &data) } else { enc_icmp(false, &src, &dst, 8, 0, rest, &data) };
+            // the checksum field of a message handed to an ICMP socket is the stack's to fill in: applications leave
+            // it unset (or compute it for another source address)
+            match tape.draw(4) {
+                0 => {
+                    msg[2] = 0;
+                    msg[3] = 0;
+                    w.stats.inc("dgram.icmp-sent-with-unset-checksum");
+                }
+                1 => {
+                    msg[2] ^= 0x5a;
+                    msg[3] = msg[3].wrapping_add(1);
+                    w.stats.inc("dgram.icmp-sent-with-unset-checksum");
+                }
+                _ => {}
+            }
             let so = w.nodes[n].sockets.get_mut::<icmp::Socket>(s.h);
             let how = tape.draw(3);
             let slack = if how == 2 { 1 + tape.draw(32) as usize } else { 0 };
